@@ -137,13 +137,14 @@ func TestVerif_C15_Rest(t *testing.T) {
 				} else {
 					fail("%s: database %s is served but the registry has no entry for the config group\nregistry: %s", what, n, regRaw)
 				}
-				// what runs on the node is what was loaded
-				rr := BootstrapAdminRequest(t, scB, http.MethodGet, "/"+n+"/_config?include_runtime=true", "")
-				var run struct {
-					RevsLimit int `json:"revs_limit"`
-				}
-				if rr.StatusCode() != 200 || json.Unmarshal([]byte(rr.Body), &run) != nil || run.RevsLimit != c.RevsLimit {
-					fail("%s: node B runs %s with revs_limit %d, the persisted config says %d (status %d)", what, n, run.RevsLimit, c.RevsLimit, rr.StatusCode())
+				// what runs on the node is what was loaded (version and content)
+				run := scB.GetDatabaseConfig(n)
+				if run == nil || run.Version != etag || run.RevsLimit == nil || int(*run.RevsLimit) != c.RevsLimit {
+					got := "nothing"
+					if run != nil {
+						got = fmt.Sprintf("version %s revs_limit %v", run.Version, base.ValDefault(run.RevsLimit, 0))
+					}
+					fail("%s: node B runs %s with %s, the persisted config is version %s revs_limit %d", what, n, got, etag, c.RevsLimit)
 				}
 				for _, col := range cs {
 					if o, dup := owner[col]; dup {
